@@ -69,11 +69,14 @@ def build(tier, seed):
         return links.href_obligations(PROP, lambda: c16.search(("end_to_end",)))
     tasks = [a_task(PROP, _binding), a_task(PROP, _rebase), a_task(PROP, _one), a_task(PROP, _fil), a_task(PROP, _host), s_task(),
              Task(f"{PROP}.S.href", PROP, "FordLinkProcessor.convert_link", _href),
+             Task(f"{PROP}.S.dict2obj", PROP, "dict2obj", lambda: external.dict2obj_constructs(PROP, lambda: c16.search(("same_names",)))),
              bd_task("end_to_end", "A exported, B built against it through a relative local path: modules.json lists exactly A's modules and public entities with URLs that exist; every "
                      "link of B into A (use, extends, [[..]], call graph) exists there and is the page of the linked name; B's own module / type / procedure win name clashes", "1 project pair"),
              bd_task("broken", "missing, non-JSON, truncated, binary, mis-shaped external descriptions: B's run succeeds and writes its own pages", f"{len(c16.BROKEN)} descriptions"),
              bd_task("declarations", "B declares a deferred binding through an abstract interface of A and extends a type of A with bindings, under every `sort` option: B's run "
                      "succeeds and its links into A exist", "6 sort options"),
+             bd_task("same_names", "A has two modules with a procedure of the same name and two types with equally named components and bindings; B uses the second module: its links "
+                     "lead to the second module's entities and never to the namesakes", "1 project pair"),
              bd_task("absolute", "external project given by an absolute local path", "1 project pair"),
              bd_task("remote", "remote external project (urlopen replaced): modules.json fetched from <url>/modules.json and every entity URL is <url>/<relative URL in A>", "4 spellings of the URL")]
     meta = {
